@@ -191,6 +191,28 @@ Theorem C07_eventually_fullnode_full : forall (b : N) (h : list fitem) (n : N) (
 Proof. exact fullnode_eventually. Qed.
 Print Assumptions C07_eventually_fullnode_full.
 
+(* an ADVERSARIAL DA layer (anybody can post to the namespace): forged copies of a header / of signed data — byte
+   strings that decode with the fields of the genuine blob, hence carry the same header hash / data commitment, but
+   are not validly signed by the proposer (blob classes BF id / BG id) — are so much junk to a full node: replace every
+   one of them in any history by an arbitrary byte string and the includer state (reported height, effect log,
+   metadata, both caches), the scan cursor and the stored State.DAHeight are the same, whatever the node had seen,
+   applied (e.g. from P2P) or marked before the forged copy is scanned.  Together with C07_fullnode_sound_full
+   (BH id / BD id are the GENUINE blobs) this is: no forged copy ever makes a height DA-included or ends up in a
+   recorded DA height. *)
+Theorem C07_fullnode_forged_blobs_are_junk_full : forall (b : N) (h : list fitem),
+  let s := frun b h in let s' := frun b (map unforge_item h) in
+  nd s' = nd s /\ cur s' = cur s /\ sdah s' = sdah s /\ dal s' = map (map unforge) (dal s).
+Proof. exact forged_blobs_are_junk. Qed.
+Print Assumptions C07_fullnode_forged_blobs_are_junk_full.
+
+(* scanning a DA height that holds nothing but forged copies changes nothing in the includer's state *)
+Theorem C07_fullnode_forged_only_height_marks_nothing_full : forall (b : N) (h : list fitem) (fs : list fault),
+  let s := frun b h in
+  forallb is_forged (content (dal s) (cur s)) = true ->
+  nd (fstep s (FScan fs)) = nd s.
+Proof. exact forged_only_height_marks_nothing. Qed.
+Print Assumptions C07_fullnode_forged_only_height_marks_nothing_full.
+
 (* ---- the aggregator (Model/IncluderAgg.v) ---------------------------------------------------------------
    [arun c b h] is a SEQUENCER node with directory configuration c (config.RootDir, config.DBPath: any strings)
    and genesis.InitialHeight = b+1 after history [h]; a history is any list over: a block is produced (AAppend),
@@ -363,6 +385,23 @@ Example resuming_above_a_needed_height_would_be_stuck :
   let s' := frun_from s2 (map FScan [[]; []; []] ++ [FInclude; FRestart; FScan []; FScan []; FInclude]) in
   (rep (nd s'), cur s', mget (hm (nd s')) 1, mget (dm (nd s')) 7) = (0, 3, None, Some 2).
 Proof. vm_compute. reflexivity. Qed.
+
+(* block 1 (non-empty) reaches the node by P2P (its header hash is then marked as seen); the DA layer holds, at DA
+   height 1, a forged copy of its header and its genuine data, and only at DA height 2 the genuine header.  After the
+   scan of height 1 the header is NOT marked and an includer run reports nothing; after the scan of height 2 the run
+   reports 1 with the header recorded at DA height 2.  A DA layer with the forged copy alone never gets the node to 1. *)
+Definition ex_forged : list fitem :=
+  [ FApply bf1; FPost [BF 1; BD 7]; FPost [BH 1]; FScan []; FScan []; FInclude ].
+Example ex_forged_run :
+  let s := frun 0 ex_forged in
+  (rep (nd s), cur s, mget (hm (nd s)) 1, mget (dm (nd s)) 7) = (0, 2, None, Some 1) /\
+  let s' := frun 0 (ex_forged ++ [FScan []; FInclude]) in
+  (rep (nd s'), meta_get (meta (nd s')) (KH 1), meta_get (meta (nd s')) (KT 1)) = (1, Some 2, Some 1) /\
+  let s'' := frun 0 ([FApply bf1; FPost [BF 1; BD 7]; FPost [BF 1; BG 7]] ++ map FScan [[]; []; []; []] ++ [FInclude]) in
+  (rep (nd s''), cur s'', mget (hm (nd s'')) 1) = (0, 3, None) /\
+  forallb is_forged (content (dal s'') 2) = true /\
+  map unforge_item ex_forged = [ FApply bf1; FPost [BJ; BD 7]; FPost [BH 1]; FScan []; FScan []; FInclude ].
+Proof. vm_compute. repeat split; reflexivity. Qed.
 
 (* ---- aggregator ------------------------------------------------------------------------------------------ *)
 (* a node whose db_path is not the default.  Two blocks (the first empty).  Header submission: the DA layer first
